@@ -71,7 +71,7 @@ PROPS["C16"] = dict(
     rule="definition = optional constructor separator + 1..10 items from {constant text, date, time, date_time (40% with a "
          "custom format of 1..6 tokens from %Y %m %d %H %M %S %y %j %e %F %T %R %D %a %b %% and literals), time_ms, time_us, "
          "pid, thread_id, line_nbr, func_name, filename, level, log_class, error_nbr, text, attribute(name), separator(s), "
-         "separator(nullptr)/setAutoSep()}, fields with optional width 1..30 and left alignment in either stream order, built "
+         "separator(nullptr)/setAutoSep()}, fields (constant texts included) with optional width 1..30 and left alignment in either stream order, built "
          "through the real Creator; history of 1..30 events from {Logging::addAttribute, Logging::removeAttribute(name), "
          "LOG_ATTRIBUTE in a real nested C++ scope, end of scope, log a message}; messages: every level/class, texts empty / "
          "words / tab / newline / longer than any width, error numbers incl. INT_MIN/INT_MAX, file names with and without "
@@ -86,7 +86,7 @@ PROPS["C16"] = dict(
     require_classes=dict(all=["attr.own_over_global", "attr.own", "attr.global", "attr.undefined", "own.chain", "scope.end",
                               "scope.nested", "scope.shadows_same_name", "global.add", "global.remove", "sep.inserted",
                               "width.left", "width.right", "width.followed_by_plain_field", "fmt.custom",
-                              "fmt.before_other_field", "item.sep", "item.sep_off", "tz.not_utc", "tz.same_utc_day_other_local_day",
+                              "fmt.before_other_field", "item.sep", "item.sep_off", "width.padded_constant", "width.padded_constant_followed_by_constant_or_separator", "tz.not_utc", "tz.same_utc_day_other_local_day",
                               "tz.other_utc_day_same_local_day"]
                          + ["item." + k for k in ("const", "date", "time", "time_ms", "time_us", "date_time", "pid", "thread_id",
                                                   "line_nbr", "func_name", "filename", "level", "log_class", "error_nbr",
